@@ -61,6 +61,7 @@ def jobs(tier):
     js.append(dict(kind="tuple", shape="tuple"))
     js.append(dict(kind="tuple", shape="list"))
     js.append(dict(kind="keywords"))
+    js.append(dict(kind="numre"))
     return js
 
 
@@ -99,7 +100,58 @@ def hsla_obligations(eng, got, h, s_, l_, d, bgcol, name):
     return exact
 
 
+CSS_NUMBER = r"[+-]?(\d+|\d*\.\d+)"      # CSS Color 3 / CSS 2.1 number token, plain decimal notation (no exponent)
+
+
+def _numre_job(job, out, check_id=None):
+    """E3 lemma over ALL strings: every CSS number (and percentage) is matched completely by the parser's numeral pattern, which
+    is what the token abstraction of the other jobs assumes ('a numeral is extracted whole')."""
+    from .. import rx
+    m = load_core(inject=False)
+    pat = m.color_parser._NUM_RE.pattern
+    s = z3.String("numeral")
+    out.d["paths"] = 1
+    for nm, lang in (("number", CSS_NUMBER), ("percentage", CSS_NUMBER + "%")):
+        name = "every CSS %s in plain decimal notation is matched whole by _NUM_RE" % nm
+        out.d["obligations"] += 1
+        out.d["names"][name] = 1
+        sol = z3.Solver()
+        sol.set("timeout", 60000)
+        sol.add(z3.InRe(s, rx.to_z3(lang)), z3.Not(z3.InRe(s, rx.to_z3(pat))), z3.Length(s) <= 6)
+        r = sol.check()
+        out.d["queries"] += 1
+        if r == z3.unsat:
+            # the length bound only shortens witnesses; the unbounded query must be unsat too
+            sol2 = z3.Solver()
+            sol2.set("timeout", 60000)
+            sol2.add(z3.InRe(s, rx.to_z3(lang)), z3.Not(z3.InRe(s, rx.to_z3(pat))))
+            r = sol2.check()
+            out.d["queries"] += 1
+        if r == z3.unsat:
+            out.d["discharged"] += 1
+            out.sample({"obligation": name, "verdict": "unsat", "pattern": pat, "language": lang})
+            continue
+        if r == z3.unknown:
+            out.d["unknown"] += 1
+            out.d["inconclusive"].append({"obligation": name, "why": "unknown", "job": job})
+            continue
+        wit = sol.model()[s].as_string()
+        inp = {"numeral": wit, "_job": job, "_obligation": name}
+        rp = runner.write_replay(check_id or ID, "numre", inp, note=name)
+        ok, detail = runner.run_replay(rp)
+        if ok:
+            out.d["violations"].append({"obligation": name, "replay": rp, "inputs": {"numeral": wit}, "detail": detail[-1500:], "kind": "numre", "job": job})
+            out.d["sat"] += 1
+        else:
+            out.d["unknown"] += 1
+            out.d["inconclusive"].append({"obligation": name, "why": "unreproduced", "witness": wit, "job": job})
+
+
 def run_job(job):
+    if job["kind"] == "numre":
+        out = runner.JobOut(job)
+        _numre_job(job, out)
+        return out.d
     m = load_core()
     parser = m.color_parser
     eng = symx.Engine()
@@ -295,7 +347,39 @@ def replay_generic(inp):
     return bad, detail + "; CSS-defined exact value %r (tolerance %s)" % (tuple(round(e, 6) for e in exact), tol)
 
 
+def replay_numre(inp):
+    """the witness numeral inside real CSS values, judged against the CSS-defined colour"""
+    from cm_colors.core.color_parser import parse_color_to_rgb
+    n = inp["numeral"]
+    bad = []
+    try:
+        v = float(n.rstrip("%"))
+    except ValueError:
+        return False, "witness %r is not a number" % n
+    cases = []
+    if n.endswith("%"):
+        if 0 <= v <= 100:
+            cases.append(("rgb(%s, 0%%, 0%%)" % n, (v * 2.55, 0, 0), 0.5))
+            cases.append(("hsl(0, 100%%, %s)" % n, tuple(255 * x for x in ref.css_hsl_exact(0, 1.0, v / 100)), 0.5))
+    else:
+        if 0 <= v <= 1:
+            cases.append(("rgba(0, 0, 0, %s)" % n, tuple(255 * (1 - v) for _ in range(3)), 1.5))
+        if 0 <= v <= 255 and float(v).is_integer():
+            cases.append(("rgb(%s, 0, 0)" % n, (v, 0, 0), 0.0))
+        cases.append(("hsl(%s, 100%%, 50%%)" % n, tuple(255 * x for x in ref.css_hsl_exact(v, 1.0, 0.5)), 0.5))
+    for s, want, tol in cases:
+        try:
+            got = parse_color_to_rgb(s)
+        except Exception as e:
+            bad.append("%s raised %r" % (s, e))
+            continue
+        if any(abs(g - w) > tol + 1e-9 for g, w in zip(got, want)):
+            bad.append("%s -> %r, CSS defines %r" % (s, got, tuple(round(w, 3) for w in want)))
+    return bool(bad), "numeral %r: %s" % (n, "; ".join(bad) or "all readings correct")
+
+
 REPLAYS = {k: replay_generic for k in ("rgb-int", "rgb-pct", "rgba-int", "rgba-pct", "hsl", "hsla", "tuple", "keywords")}
+REPLAYS["numre"] = replay_numre
 
 
 def main(tier, seed):
